@@ -7,6 +7,7 @@ package main
 // custom stores are dumped.  Against the Lean model `Tx.deliverTx`.
 
 import (
+	burntypes "github.com/medibloc/panacea-core/v2/x/burn/types"
 	"fmt"
 	"math/rand"
 	"strings"
@@ -229,6 +230,7 @@ func monC15FeeDenoms(s *Stream) {
 		}
 		c.Begin(c.Time.Add(time.Second))
 		fc := authtypes.NewModuleAddress(authtypes.FeeCollectorName)
+		burnAddr := sdk.MustAccAddressFromBech32(burntypes.BurnAddress)
 		snapshot := func() (map[string]sdk.Coins, sdk.Coins) {
 			m := map[string]sdk.Coins{}
 			ctx := c.DeliverCtx()
@@ -236,6 +238,8 @@ func monC15FeeDenoms(s *Stream) {
 				m[a.Name] = c.App.BankKeeper.GetAllBalances(ctx, a.Addr)
 			}
 			m["fee-collector"] = c.App.BankKeeper.GetAllBalances(ctx, fc)
+			m["burn-address"] = c.App.BankKeeper.GetAllBalances(ctx, burnAddr)
+			m["burn-module"] = c.App.BankKeeper.GetAllBalances(ctx, authtypes.NewModuleAddress(burntypes.ModuleName))
 			var sup sdk.Coins
 			for _, d := range []string{feeDenom, "ukrw", "zzz"} {
 				sup = sup.Add(c.App.BankKeeper.GetSupply(ctx, d))
@@ -243,6 +247,12 @@ func monC15FeeDenoms(s *Stream) {
 			return m, sup
 		}
 		A, B := accts[0], accts[1]
+		// a bystander with a special role: coins that reached the burn address in this block by other means (a module
+		// payout in BeginBlock, an unlocking vesting schedule) wait there for the end-blocker; a custom-module
+		// transaction delivered in between must not touch them or the supply
+		if err := c.App.BankKeeper.SendCoins(c.DeliverCtx(), accts[2].Addr, burnAddr, sdk.NewCoins(sdk.NewInt64Coin(feeDenom, 7000), sdk.NewInt64Coin("ukrw", 5))); err != nil {
+			return "pass #cannot-fund-burn-address " + err.Error()
+		}
 		fees := []sdk.Coins{
 			sdk.NewCoins(sdk.NewInt64Coin(feeDenom, 5000), sdk.NewInt64Coin("ukrw", 700)),
 			sdk.NewCoins(sdk.NewInt64Coin("ukrw", 900)),
